@@ -265,6 +265,46 @@ def rule_state(ctx):
     shared_defaults(ctx, "C09.state", ["yowsup/structs/"])
 
 
+def definitely_str(e):
+    return (isinstance(e, ast.Constant) and isinstance(e.value, str)) or isinstance(e, ast.JoinedStr) or \
+        (isinstance(e, ast.BinOp) and isinstance(e.op, ast.Mod) and definitely_str(e.left)) or \
+        (isinstance(e, ast.BinOp) and isinstance(e.op, ast.Add) and (definitely_str(e.left) or definitely_str(e.right))) or \
+        (isinstance(e, ast.Call) and isinstance(e.func, ast.Name) and e.func.id in ("str", "repr")) or \
+        (isinstance(e, ast.Call) and isinstance(e.func, ast.Attribute) and e.func.attr in ("join", "format"))
+
+
+def definitely_int(e):
+    return (isinstance(e, ast.Constant) and isinstance(e.value, int) and not isinstance(e.value, bool)) or \
+        (isinstance(e, ast.Call) and isinstance(e.func, ast.Name) and e.func.id in ("len", "int")) or \
+        (isinstance(e, ast.BinOp) and isinstance(e.op, (ast.Sub, ast.Mult, ast.FloorDiv)) and definitely_int(e.left) and definitely_int(e.right))
+
+
+def rule_str(ctx, rule="C09.api"):
+    """handlers format stanzas into log / error texts (`"%s" % node`) before they answer: the tree's and the base
+    entity's __str__ must not raise.  Decided for the one shape that raises for certain: arithmetic between a formatted
+    string and a number (`"..%s" % n - k` parses as `("..%s" % n) - k`)."""
+    repo = ctx.repo
+    n = 0
+    for rel, cn in (("yowsup/structs/protocoltreenode.py", "ProtocolTreeNode"), ("yowsup/structs/protocolentity.py", "ProtocolEntity")):
+        cls = repo.cls(rel, cn)
+        for name, fn in sorted(cls.methods.items()):
+            if name not in ("__str__", "__repr__", "toString", "getData", "getAttributeValue") and not name.startswith("__str"):
+                continue
+            n += 1
+            bad = None
+            local_ints = {t.id for st in ast.walk(fn) if isinstance(st, ast.Assign) and definitely_int(st.value) for t in st.targets if isinstance(t, ast.Name)}
+            for b in ast.walk(fn):
+                if isinstance(b, ast.BinOp) and isinstance(b.op, (ast.Sub, ast.Div, ast.FloorDiv)) and (definitely_str(b.left) or definitely_str(b.right)):
+                    bad = b
+                if isinstance(b, ast.BinOp) and isinstance(b.op, ast.Add) and ((definitely_str(b.left) and (definitely_int(b.right) or (isinstance(b.right, ast.Name) and b.right.id in local_ints))) or
+                                                                                 (definitely_str(b.right) and (definitely_int(b.left) or (isinstance(b.left, ast.Name) and b.left.id in local_ints)))):
+                    bad = b
+            ctx.check(rule, bad is None, where(rel, "%s.%s" % (cn, name), fn.lineno), "%s.%s cannot raise a TypeError of its own" % (cn, name),
+                      "`%s` applies arithmetic to a formatted string: it raises TypeError whenever it is reached, and handlers that put the stanza into a log or error text (unknown notification types, unsupported stanzas) die before they answer" % (unparse(bad)[:70] if bad is not None else ""),
+                      "no arithmetic on strings")
+    return n
+
+
 def rule_wire(ctx):
     """'survives the codec unchanged': given well-typed tags / attributes / data (C09.codec), a stanza survives iff the
     codec is a round trip - that is C01's rule set, adopted here so that a codec change is reported against C09 too."""
@@ -287,19 +327,10 @@ def rule_wire(ctx):
     ctx.adopt(scratch, {r: "C09.wire" for r in ("C01.tags", "C01.int", "C01.class", "C01.pack", "C01.dbl", "C01.unpack", "C01.count", "C01.dict", "C01.str", "C01.node", "C01.layer")})
 
 
-def run(ctx):
-    ctx.rule("C09.wire", "the codec the stanzas pass through is a round trip (C01.int/class/tags/dbl/pack/unpack adopted)", floor=40)
-    ctx.rule("C09.payload", "the payload converter message entities are parsed and re-serialised through is a bijection (C10.bij/has/top adopted)", floor=100)
-    ctx.rule("C09.state", "a node's attribute / child containers are fresh per node; no shared default objects in structs", floor=2)
-    ctx.rule("C09.fresh", "containers filled per element inside converter loops are allocated per element", floor=5)
-    ctx.rule("C09.ret", "converters return an entity / a node on every path", floor=40)
-    ctx.rule("C09.same", "written values are fed by the same (path, key) of the input", floor=40)
-    ctx.rule("C09.kept", "stored (path, key) are written back", floor=40)
-    ctx.rule("C09.api", "ProtocolTreeNode methods exist", floor=40)
-    ctx.rule("C09.codec", "definite non-string attribute values / str data in entities the stack sends", floor=40)
-    ctx.assume("numeric normalisation and boolean flags are provenance-preserving conversions; value-level equality is not decided")
+def rule_classes(ctx, only=None):
+    """per receive-side entity class: ret / api / same / kept (only: predicate on the class to restrict the set)"""
     repo = ctx.repo
-    classes = receive_side_classes(repo)
+    classes = [(c, u) for c, u in receive_side_classes(repo) if only is None or only(c)]
     ctx.units["C09.receive_side_classes"] = len(classes)
     not_analysed = []
     for cls, used_in in classes:
@@ -354,6 +385,21 @@ def run(ctx):
             k = sorted(r["codec"])[0]
             ctx.note("%s (receive-side only): %s[%s] %s - compared by value on re-serialisation, never sent" % (cls.name, "/".join(k[0]) or "stanza", k[1], r["codec"][k]))
     ctx.units["C09.not_analysed"] = not_analysed
+
+
+def run(ctx):
+    ctx.rule("C09.wire", "the codec the stanzas pass through is a round trip (C01.int/class/tags/dbl/pack/unpack adopted)", floor=40)
+    ctx.rule("C09.payload", "the payload converter message entities are parsed and re-serialised through is a bijection (C10.bij/has/top adopted)", floor=100)
+    ctx.rule("C09.state", "a node's attribute / child containers are fresh per node; no shared default objects in structs", floor=2)
+    ctx.rule("C09.fresh", "containers filled per element inside converter loops are allocated per element", floor=5)
+    ctx.rule("C09.ret", "converters return an entity / a node on every path", floor=40)
+    ctx.rule("C09.same", "written values are fed by the same (path, key) of the input", floor=40)
+    ctx.rule("C09.kept", "stored (path, key) are written back", floor=40)
+    ctx.rule("C09.api", "ProtocolTreeNode methods exist", floor=40)
+    ctx.rule("C09.codec", "definite non-string attribute values / str data in entities the stack sends", floor=40)
+    ctx.assume("numeric normalisation and boolean flags are provenance-preserving conversions; value-level equality is not decided")
+    ctx.guarded("C09.classes", rule_classes, ctx)
+    repo = ctx.repo
     ctx.guarded("C09.codec_sent", rule_codec_sent, ctx, repo)
 
 
@@ -437,3 +483,4 @@ def rule_codec_sent(ctx, repo, only=False):
     ctx.guarded("C09.fresh", rule_fresh, ctx)
     ctx.guarded("C09.payload", rule_payload, ctx)
     ctx.guarded("C09.state", rule_state, ctx)
+    ctx.guarded("C09.api", rule_str, ctx)
